@@ -111,7 +111,12 @@ CLAIMED['C14'] = dict(
         'Correspondence: real conversions of single datasets (values of templates.*, clusters.*, spikes.amps/depths vs the exact C09/C14 models) and of datasets merged from 1..4 probes (raw indices, listed channels).',
    note='Float32 outputs compared with relative tolerance 1e-6, multi-step float64 chains with 1e-9; on merged sources only the index bookkeeping is claimed (large token values are not exact in float32).',
    tech='Lean 4 composition theorem (merge then export = identity on channel maps) + sort lemmas + differential correspondence against /repo', ref='§5 C14')
-REASONS = {'C04': 'check under construction (loader model); until it is committed the loader is exercised indirectly by C03, C05-C10, C13, C14'}
+CLAIMED['C04'] = dict(
+   text='Theorems over all directories: first matching name wins (and no earlier pattern matches anything); a successful load leaves every pre-existing file unchanged and creates nothing except the spike-cluster copy and the inverse whitening matrix, each exactly when missing; non-monotonic spike times are rejected; NaN/inf are scrubbed to zero in fully loaded arrays with finite cells and shape kept; without a cluster file the loaded clusters are the loaded templates and the created file is a byte copy of the template file. The attribute table (which file, which transform, which default) is the definition of the model and is tied to the real loader by the correspondence run. '
+        'Correspondence: generated KS / ALF directories over the whole presence/absence matrix, (n,1) vectors, dtypes, NaN/inf incl. all-NaN templates, sparse templates, extra per-spike attributes, raw data wider than the channel map, non-monotonic times; every public attribute + directory hashes before/after.',
+   note='PARTIAL: the value part is decision logic (shallow theorems); np.linalg.inv opaque (wm . wmi = I checked numerically); memmap/glob transport; stored dimensions of size 1 are out of scope.',
+   tech='Lean 4 theorems (frame theorem over a finite-map directory model, first-match lemma) + differential correspondence against /repo', ref='§5 C04')
+REASONS = {}
 
 checks = []
 for i in ids:
